@@ -938,3 +938,28 @@ ENGINES = ["E1-pyvc", "E3-E4-rtc"]
 LEVEL_TEXT = 'Mixed. Proved (E1-term, over uninterpreted library operations and callee contracts): trace_norm, trace_distance, helstrom_holevo, hilbert_schmidt, bures_distance, bures_angle, sub_fidelity, fidelity and the Hilbert-Schmidt inner product compute their documented formulas (machine arithmetic treated as mathematical). Everything the formulas are supposed to satisfy (agreement with independently computed definitions, symmetry, invariance, extreme values, metric axioms, inequalities, rejection of non-density inputs, fidelity of separability) is a bounded run-time contract check.'
 EXPLANATION = LEVEL_TEXT
 TECHNIQUE = "formula contracts over uninterpreted library operations, VCs from the real AST discharged by z3 (E1-term) + bounded run-time-checked contracts on the real functions"
+
+
+# =============================================================================================
+# frame coverage shared by all properties (E2 obligations for every public function of the anchor files + run-time frame cases)
+# =============================================================================================
+from props import frame_all as _fa  # noqa: E402
+from props.frame_common import frame_generic as _fg, frame_object as _fo  # noqa: E402
+
+CLAUSES.setdefault("frame.generic", _fg)
+CLAUSES.setdefault("frame.object", _fo)
+_cases_before_frames = cases
+_prove_before_frames = globals().get("prove")
+
+
+def cases(tier, seed):  # noqa: F811
+    return _cases_before_frames(tier, seed) + _fa.frame_cases(ID, seed)
+
+
+def prove(tier, seed):  # noqa: F811
+    from vt.pyvc.termproofs import merge
+
+    b = _fa.prove_frames(ID, lambda s: _fa.frame_cases(ID, s))(tier, seed)
+    if _prove_before_frames is None:
+        return b
+    return merge(_prove_before_frames(tier, seed), b)
